@@ -1,6 +1,7 @@
 import O2P.Model.Gate
 import O2P.Lemmas.Cover
 import O2P.Lemmas.InferOr
+import O2P.Lemmas.PostFlat
 /-!
 # C06 — gate inference explains all observed successor sets; exact without mixed OR
 The quantifier of C06 is finite and is enumerated by `domain`: `domain_counts` (kernel-checked) gives
@@ -99,34 +100,8 @@ theorem cover_spec (es0 : List (List String)) (u : List String) (c : List (List 
     (∀ p ∈ c, p ∈ es0) ∧
     (c.Pairwise fun a b => ∀ x, ¬ (x ∈ a ∧ x ∈ b)) ∧
     (∀ x ∈ u, ∃ p ∈ c, x ∈ p) ∧
-    (∀ e ∈ es0, sameS e u = false → ∀ x ∈ e, ∃ p ∈ c, (∀ y ∈ p, y ∈ e) ∧ x ∈ p) := by
-  unfold weightedCover at h
-  simp only at h
-  by_cases hes : (es0.filter fun s => !sameS s u).isEmpty = true
-  · simp [hes] at h
-  · simp only [hes, Bool.false_eq_true, if_false, List.mem_map] at h
-    obtain ⟨r, hr, hb⟩ := h
-    cases r with
-    | none => simp at hb
-    | some c' =>
-      simp only [Option.bind_some] at hb
-      by_cases hck : checkCover (es0.filter fun s => !sameS s u) c' = true
-      · simp only [hck, if_true, Option.some.injEq] at hb
-        subst hb
-        obtain ⟨g1, g2, _⟩ := greedy_spec _ _ u [] c' hr
-        simp only [checkCover, Bool.and_eq_true, List.all_eq_true] at hck
-        refine ⟨?_, pairwiseDisjoint_spec c' hck.2, g2, ?_⟩
-        · intro p hp
-          rcases g1 p hp with h | h
-          · simp at h
-          · exact (List.mem_filter.mp h).1
-        · intro e he hne x hx
-          have hmem : e ∈ es0.filter fun s => !sameS s u := List.mem_filter.mpr ⟨he, by simp [hne]⟩
-          have hemp := hck.1 e hmem
-          rcases reduceBy_spec e c' e (fun y hy => hy) x hx with h | ⟨p, hp, h1, h2⟩
-          · rw [List.isEmpty_iff.mp hemp] at h; simp at h
-          · exact ⟨p, hp, subsetS_iff.mp h1, h2⟩
-      · simp [hck] at hb
+    (∀ e ∈ es0, sameS e u = false → ∀ x ∈ e, ∃ p ∈ c, (∀ y ∈ p, y ∈ e) ∧ x ∈ p) :=
+  weightedCover_spec es0 u c h
 
 /-- **C06, the cover step, in gate semantics**: the gate `process_missing_and_gates` builds from a returned cover —
 `OR` over the cover members, each a leaf or the `AND` of its events — admits every non-empty observed set below the
@@ -145,6 +120,16 @@ theorem cover_sound_universe (es0 : List (List String)) (u : List String) (c : L
   intro x hx
   obtain ⟨p, hp, hxp⟩ := h3 x hx
   exact ⟨p, hp, hsub p (h1 p hp), hxp⟩
+
+/-- **C06, the post-processing end to end on the flat case**: for the miner's node over optional plain events only,
+`+(X(tau, r)…)`, **every** outcome of `postProcess` — OR inference, defunct-OR filter, AND recovery under every choice
+the cover step can make — is a gate tree that admits every non-empty observed set below those events.  The three
+modelled steps compose; no abstraction, no table. -/
+theorem post_flat_or_sound (F : List (List String)) (R : List String) (hR : R ≠ [])
+    (o : PTree) (ho : o ∈ postProcess F (rawLeaves [] R))
+    (s : List String) (hs : s ∈ F) (hne : s ≠ []) (hsub : ∀ x ∈ s, x ∈ R) :
+    ∃ g, o.toGate = some g ∧ admits g s = true :=
+  post_flat_sound F R hR o ho s hs hne hsub
 
 /-- non-vacuity: the family of `OR(AND(a,b), c)` has the cover `{c}, {a,b}` under every choice; with the extra
 observation `{a}` every choice ends in `None` (the greedy members overlap) -/
